@@ -12,6 +12,7 @@ import (
 	"time"
 
 	tally "github.com/uber-go/tally/v4"
+	"github.com/uber-go/tally/v4/multi"
 
 	"verifharness/mon"
 )
@@ -79,6 +80,17 @@ func c08Run(c *mon.Ctx, r *mon.Rand) {
 		}
 		recB.Src = 1
 	}
+	// a quarter of the shutdowns without a closable reporter reach the recorder
+	// through two levels of multi reporters (an application-wide fan-out that
+	// contains a per-team fan-out): reports and the final flush must get through
+	viaMulti := closerKind == 0 && !both && r.Chance(1, 4)
+	if viaMulti {
+		if cached {
+			opts.CachedReporter = multi.NewMultiCachedReporter(multi.NewMultiCachedReporter(opts.CachedReporter))
+		} else {
+			opts.Reporter = multi.NewMultiReporter(multi.NewMultiReporter(opts.Reporter))
+		}
+	}
 	if closerKind == 2 {
 		rec.CloseErr = mon.ErrRecClose
 		if recB != nil {
@@ -97,6 +109,7 @@ func c08Run(c *mon.Ctx, r *mon.Rand) {
 		interval = 0
 	}
 	nSub := r.Range(5, 120)
+	nZ := r.Range(0, 12)
 	nClosers := r.Range(1, 3)
 	slowMax := r.Range(0, 300)
 	slowProb := r.Range(0, 60) // per mille of reporter calls that are slow
@@ -117,7 +130,7 @@ func c08Run(c *mon.Ctx, r *mon.Rand) {
 	if recB != nil {
 		recB.Delay = rec.Delay
 	}
-	prof := mon.RandomProfile(r, []int{tally.VerifPassBegin, tally.VerifPassLocked, tally.VerifCloseEnter, tally.VerifCloseBeforeFinal, tally.VerifCloseAfterFinal, tally.VerifRegScopeReported}, r.Intn(3))
+	prof := mon.RandomProfile(r, []int{tally.VerifPassBegin, tally.VerifPassLocked, tally.VerifCloseEnter, tally.VerifCloseBeforeFinal, tally.VerifCloseAfterFinal, tally.VerifRegScopeReported, tally.VerifReacquireBeforeReport}, r.Intn(3))
 	switch r.Intn(4) {
 	case 0:
 		prof = mon.DelayProfile{} // no injected delays: passes are short, Close lands between ticks
@@ -139,8 +152,8 @@ func c08Run(c *mon.Ctx, r *mon.Rand) {
 	defer tally.VerifSetHook(nil)
 	before := reportLoopGoroutines()
 	root, closer := vNewRoot(opts, interval, uint(r.Range(0, 4)))
-	desc := map[string]interface{}{"cached": cached, "both_reporter_kinds_configured": both, "closer": []string{"none", "ok", "errors"}[closerKind], "interval_us": interval.Microseconds(), "manual_passes": manual,
-		"subscopes": nSub, "close_callers": nClosers, "slow_reporter_permille": slowProb, "slow_max_us": slowMax}
+	desc := map[string]interface{}{"cached": cached, "both_reporter_kinds_configured": both, "through_nested_multi_reporters": viaMulti, "closer": []string{"none", "ok", "errors"}[closerKind], "interval_us": interval.Microseconds(), "manual_passes": manual,
+		"subscopes": nSub, "closed_subscopes_requested_again_during_close": nZ, "close_callers": nClosers, "slow_reporter_permille": slowProb, "slow_max_us": slowMax}
 	c.LogCase(fmt.Sprint(desc))
 	stopWatch := c.Watchdog(300*time.Second, "close-or-recorders-do-not-return", desc)
 	defer stopWatch()
@@ -163,6 +176,10 @@ func c08Run(c *mon.Ctx, r *mon.Rand) {
 		gms[i] = &gm{ctr: sc.Counter("c"), g: sc.Gauge("g"), h: sc.Histogram("h", tally.ValueBuckets{}), name: fmt.Sprintf("s%d", i)}
 	}
 	lateOldSub, lateOldTagged := root.SubScope("old"), root.Tagged(map[string]string{"old": "1"})
+	zs := make([]tally.Scope, nZ)
+	for k := range zs {
+		zs[k] = root.SubScope(fmt.Sprintf("z%d", k))
+	}
 	ngScope := root.SubScope("ng")
 	ngCtr := []tally.Counter{ngScope.Counter("a"), ngScope.Counter("b")}
 	ngGauge := ngScope.Gauge("g")
@@ -241,6 +258,29 @@ func c08Run(c *mon.Ctx, r *mon.Rand) {
 				atomic.AddInt32(&aliveAtReturn, 1)
 			}
 		}(i)
+	}
+	// subscopes that were closed a moment before the shutdown (still registered:
+	// only a report pass drops them) and are asked for again while it runs - the
+	// registry reports such a scope on the spot, from the asking goroutine. What
+	// they hold was recorded before Close was called.
+	for k, z := range zs {
+		z.Counter("c").Inc(int64(k + 1))
+		z.(io.Closer).Close()
+	}
+	for d := 0; d < 2 && len(zs) > 0; d++ {
+		wgC.Add(1)
+		go func(d int) {
+			defer wgC.Done()
+			<-startC
+			c.Guard("panic-derive-during-close", func() interface{} { return desc }, func() {
+				for k := d; k < len(zs); k += 2 {
+					// only derived: a scope handed out while Close runs is an old
+					// handle, not one "obtained afterwards", and first uses on it may
+					// still reach the reporter
+					root.SubScope(fmt.Sprintf("z%d", k))
+				}
+			})
+		}(d)
 	}
 	close(startC)
 	wgC.Wait()
@@ -399,6 +439,12 @@ func c08Run(c *mon.Ctx, r *mon.Rand) {
 			if got := lastGauge[mon.IdentKey(m.name+".g", nil)]; got != m.last {
 				bad("not-delivered-before-close-returned", fmt.Sprintf("gauge %s.g: most recent value before Close returned %#x, last update %#x (landed %s)", m.name, got, m.last, where))
 			}
+		}
+	}
+	for k := range zs {
+		c.Event("guaranteed-metrics-checked", 1)
+		if got := sumBefore[mon.IdentKey(fmt.Sprintf("z%d.c", k), nil)]; got != int64(k+1) {
+			bad("not-delivered-before-close-returned", fmt.Sprintf("counter z%d.c of a subscope closed just before the shutdown and requested again during it: %d delivered before Close returned, %d recorded before Close was called (landed %s)", k, got, k+1, where))
 		}
 	}
 	if lastDelivery >= 0 && lastFlush < lastDelivery {
